@@ -10,6 +10,7 @@ descriptions drawn by hypothesis (derandomized) must be reconstructed exactly by
 from __future__ import annotations
 
 import json
+import os
 import shutil
 import tempfile
 import traceback
@@ -54,6 +55,44 @@ def version_trials(task: dict) -> dict:
                         loaded = False
                     out["obs"].append({"v": [a, b, c], "running": running, "loaded": loaded})
         info_path.write_text(clean)
+        # datasets REALLY written by a library that calls itself a different version (a writer process whose
+        # sedpack.__version__ is set before sedpack.io is imported): what the writer records about itself is part of
+        # the gate - a description edited by hand cannot show a writer that forgets to record its version
+        import subprocess
+        import sys
+        a, b, c = running
+        others = [(a, b, c), (a, b, c + 1), (a, b + 1, 0), (a + 1, 0, 0)] + ([(a, b, c - 1)] if c > 0 else []) + \
+                 ([(a, b - 1, c + 5)] if b > 0 else [])
+        script = (
+            "import sys, sedpack\n"
+            "sedpack.__version__ = sys.argv[2]\n"
+            "from pathlib import Path\n"
+            "from harness import rustext\n"
+            "rustext.SO.exists() and rustext.preload()\n"
+            "from sedpack.io import Dataset, Metadata\n"
+            "from harness import dsreal\n"
+            "ds = Dataset.create(Path(sys.argv[1]), Metadata(description='w'), dsreal.structure('fb', '', 2, ('md5',)))\n"
+            "f = ds.filler()\n"
+            "ctx = f.__enter__()\n"
+            "ctx.write_example(values=dsreal.example(1), split='train')\n"
+            "f.__exit__(None, None, None)\n")
+        procs = []
+        for k, v in enumerate(others):
+            wroot = tmp / f"w{k}"
+            procs.append((v, wroot, subprocess.Popen([sys.executable, "-c", script, str(wroot), ".".join(map(str, v))],
+                                                     stdout=subprocess.PIPE, stderr=subprocess.STDOUT, text=True,
+                                                     env=dict(os.environ, TF_CPP_MIN_LOG_LEVEL="3"))))
+        for v, wroot, pr in procs:
+            so, _ = pr.communicate(timeout=900)
+            if pr.returncode != 0:
+                out["error"] = f"writer process for version {v} failed:\n{so[-1500:]}"
+                return out
+            try:
+                Dataset(wroot)
+                loaded = True
+            except Exception:  # pylint: disable=broad-except
+                loaded = False
+            out["obs"].append({"v": list(v), "running": running, "loaded": loaded, "real_writer": True})
     except Exception:  # pylint: disable=broad-except
         out["error"] = traceback.format_exc()
     finally:
